@@ -136,9 +136,16 @@ class Affine(Suite):
             w = dict(case["tree"]); w["xyz"] = [[p[0] + 17.0, p[1] - 9.0, p[2] + 4.0] for p in w["xyz"]]
             tr(gen.make_tree(w))
         y = tr(t)
+        via_classmethod = None
+        if case["kind"] in ("translate", "scale") and case["center"] != "default":
+            # the one-shot spelling `Cls.transform(tree, …)`
+            from swcgeom.transforms import Scale, Translate
+
+            z = (Translate if case["kind"] == "translate" else Scale).transform(t, *case["a"], center=case["center"])
+            via_classmethod = bool(np.array_equal(z.xyz(), y.xyz()))
         res = {"xyz": y.xyz().astype(np.float64).tolist(), "pid": y.pid().tolist(), "type": y.type().tolist(),
                "r": y.r().astype(np.float64).tolist(), "id": y.id().tolist(),
-               "input_changed": any(not np.array_equal(before[k], t.ndata[k]) for k in before)}
+               "input_changed": any(not np.array_equal(before[k], t.ndata[k]) for k in before), "via_classmethod": via_classmethod}
         if inv is not None:
             res["back"] = inv(y).xyz().astype(np.float64).tolist()
         return res
@@ -183,6 +190,8 @@ class Affine(Suite):
             out.append(("radii-changed", "radii changed by a geometric transform"))
         if res["input_changed"]:
             out.append(("input-modified", "the input tree was modified"))
+        if res.get("via_classmethod") is False:
+            out.append((f"{case['kind']}-wrong-map/{self._center(case)}", f"{case['kind']}.transform(tree, …) differs from {case['kind']}(…)(tree)"))
         if "back" in res and not np.allclose(np.array(res["back"]), P, atol=5e-3 + 4e-5 * np.abs(P).max(), rtol=0):
             out.append((f"{case['kind']}-inverse", "transform followed by its inverse does not restore the coordinates"))
         return out
